@@ -306,3 +306,59 @@ func VerifC13_Specifiers() {
 	}
 	vnd.Assert(vnd.Quiesce() == 0, "C13.specifiers.goroutines-finish")
 }
+
+// VerifC13_RefreshFromWallets: the wallet account manager as main builds it
+// (New, which makes a first refresh; opening a wallet is replaced by a lookup in
+// c13Wallets): an account of the wallets named by the specifiers is known
+// afterwards exactly when its wallet/account name fully matches one of the
+// specifiers and a configured passphrase unlocks it; it is then found by its
+// public key; accounts of a wallet no specifier names are never opened.
+func VerifC13_RefreshFromWallets() {
+	vm := &c13Validators{recs: map[phase0.BLSPubKey]*phase0.Validator{}, idx: map[phase0.BLSPubKey]phase0.ValidatorIndex{}}
+	specs := []string{c13Specifiers[vnd.Choose("specifier", len(c13Specifiers))]}
+	if vnd.Bool("second-specifier") {
+		specs = append(specs, c13Specifiers[vnd.Choose("specifier2", len(c13Specifiers))])
+	}
+	pass := [][]byte{[]byte("wrong"), []byte("secret")}
+	if vnd.Bool("passphrase-unknown") {
+		pass = pass[:1]
+	}
+	w1 := &vstub.Wallet{Nm: "Wallet 1"}
+	for i, nm := range c13Names {
+		acc := &c13Locked{}
+		acc.Tag, acc.Nm = uint64(i+1), nm
+		acc.Key.B = phase0.BLSPubKey{byte(i + 1)}
+		w1.Accs = append(w1.Accs, acc)
+	}
+	other := &c13Locked{}
+	other.Tag, other.Nm = 99, "Account 1"
+	other.Key.B = phase0.BLSPubKey{99}
+	w3 := &vstub.Wallet{Nm: "Wallet 3", Accs: []e2wtypes.Account{other}}
+	c13Wallets = map[string]e2wtypes.Wallet{"Wallet 1": w1, "Wallet 2": &vstub.Wallet{Nm: "Wallet 2"}, "Wallet 3": w3}
+	s, err := New(context.Background(), WithLogLevel(zerolog.Disabled), WithMonitor(&nullmetrics.Service{}),
+		WithProcessConcurrency(2), WithLocations([]string{"/nonexistent/wallets"}), WithAccountPaths(specs), WithPassphrases(pass),
+		WithValidatorsManager(vm), WithSpecProvider(c13Chain{}), WithFarFutureEpochProvider(c13Chain{}),
+		WithDomainProvider(c13Chain{}), WithCurrentEpochProvider(vstub.NewChainTime(0)))
+	vnd.Assert(err == nil && s != nil, "C13.new.accepted")
+	if s == nil {
+		return
+	}
+	for i, nm := range c13Names {
+		want := false
+		for _, sp := range specs {
+			want = want || c13FullMatch(sp, "Wallet 1", nm)
+		}
+		want = want && len(pass) == 2
+		key := phase0.BLSPubKey{byte(i + 1)}
+		_, used := s.accounts[key]
+		vnd.Assert(used == want, "C13.refresh.account-known-iff-its-name-fully-matches-a-specifier-and-it-unlocks")
+		acc, aerr := s.AccountByPublicKey(context.Background(), key)
+		vnd.Assert((aerr == nil && acc != nil) == want, "C13.refresh.known-account-found-by-its-public-key")
+		if used {
+			vnd.Cover("C13.refresh.account-used")
+		}
+	}
+	_, usedOther := s.accounts[phase0.BLSPubKey{99}]
+	vnd.Assert(!usedOther, "C13.refresh.accounts-of-a-wallet-no-specifier-names-are-not-used")
+	vnd.Assert(vnd.Quiesce() == 0 && vnd.HeldLocks() == 0, "C13.refresh.goroutines-finish-locks-released")
+}
